@@ -222,9 +222,53 @@ func runC05Getters(c *Cfg) {
 	})
 }
 
+// runC05DeadlineInWait: the context's own deadline expires while the node sits in a retry wait that is ten times
+// longer: the run is cut short there (no further attempt) and its error matches the context's error — which is
+// DeadlineExceeded, not Canceled.
+func runC05DeadlineInWait(c *Cfg) {
+	r := c.Rep
+	var cases []*scen.Scenario
+	for kind := 0; kind < scen.NumScriptedKinds; kind++ {
+		if !scen.KindHasRetry(kind) {
+			continue
+		}
+		for depth := 0; depth <= 1; depth++ {
+			nodes := []scen.NodeSpec{{Kind: kind, N: 3, WaitMs: 400, HasFB: kind%2 == 0, Visits: []scen.Visit{{FirstOK: 4, Post: "go"}}}}
+			root := 0
+			if depth == 1 {
+				nodes = append(nodes, scen.NodeSpec{Kind: scen.KFlow, N: 1, Flow: &scen.FlowSpec{Start: 0}})
+				root = 1
+			}
+			cases = append(cases, &scen.Scenario{Nodes: nodes, Root: root, Runs: 1, Inject: scen.Inject{Kind: "deadline-in-wait", At: 40}})
+		}
+	}
+	parallelN(c, len(cases), 32, func(i int) {
+		sc := cases[i]
+		o := scen.NewExec(sc).RunOnce()
+		r.EvalN(1)
+		r.Count("inject.deadline-in-wait", 1)
+		nExec := 0
+		for _, e := range o.Events {
+			if e.Phase == "exec" {
+				nExec++
+			}
+		}
+		switch {
+		case o.ErrNil:
+			r.Violate("C05", "C05:cut-short-success:deadline-in-wait", fmt.Sprintf("the context's 40 ms deadline expired during the 400 ms retry wait, yet the run reported success (%d attempts)", nExec), ScenCase{"deadline-in-wait", sc})
+		case !strings.Contains(o.ErrID, "ctx"):
+			r.Violate("C05", "C05:cut-short-error-not-ctx:deadline-in-wait", fmt.Sprintf("the context's deadline expired during the retry wait; the returned error %q does not match the context's error %q", o.ErrText, o.CtxErr), ScenCase{"deadline-in-wait", sc})
+		case nExec > 1:
+			r.Violate("C05", "C05:exec-after-cancel:deadline-in-wait", fmt.Sprintf("the 40 ms deadline expired during the 400 ms wait after attempt 1, yet %d attempts were made", nExec), ScenCase{"deadline-in-wait", sc})
+		}
+		r.Nontrivial("diw:" + scenSig(sc))
+	})
+}
+
 func runC05(c *Cfg) {
 	r := c.Rep
 	defer runC05TripAtCheck(c)
+	defer runC05DeadlineInWait(c)
 	defer runC05FlowRetries(c)
 	defer runC05Getters(c)
 	nb := c.Pick(2000, 150000)
@@ -307,6 +351,14 @@ func replayC05(c *Cfg, spec json.RawMessage) {
 	var cs ScenCase
 	if err := json.Unmarshal(spec, &cs); err != nil || cs.Scenario == nil {
 		fmt.Println("cannot parse case:", err)
+		return
+	}
+	if cs.Scenario.Inject.Kind == "deadline-in-wait" {
+		o := scen.NewExec(cs.Scenario).RunOnce()
+		fmt.Printf("observed: errNil=%v err=%q matches=%q ctx=%q events=%v\n", o.ErrNil, o.ErrText, o.ErrID, o.CtxErr, keysOf(o.Events))
+		if o.ErrNil || !strings.Contains(o.ErrID, "ctx") {
+			c.Rep.Violate("C05", "C05:cut-short-error-not-ctx:deadline-in-wait", "error does not match the context's error", cs)
+		}
 		return
 	}
 	if cs.Scenario.Inject.Kind == "trip-at-check" {
